@@ -137,6 +137,21 @@ class C12(Prop):
                    'a fault is an exception raised by the target call; faults are addressed per thread (k-th call of thread i), so a plan is schedule-independent',
                    'ThreadsafeForwardingResult.wasSuccessful() forwards to the target without the semaphore; it is a query outside the statement and is not generated']
 
+    manifest = {
+        'text': 'Theorems for every number of threads, every forwarder program (arbitrary operation sequences incl. control calls), every fault plan and every '
+                'schedule (arbitrary list of thread ids, unbounded): the log of the shared target/semaphore is a sequence of whole critical sections, each one '
+                'operation of one thread (one well-shaped block: time, startTest, time, tags, outcome, stopTest - cut only directly after a raising call, a '
+                'raising outcome still followed by stopTest), never interleaved; per thread exactly its own sequential call sequence (every outcome once, in order, '
+                'own start time and tags); the semaphore is free at every operation boundary; no reachable state is stuck and every run terminates. The hand-written '
+                'model is tied to the code by a differential check that drives real ThreadsafeForwardingResult objects in real threads under a deterministic '
+                'scheduler (bounded-pre-emption exhaustive + random schedules, injected faults).',
+        'note': 'partial by nature: the theorems cover every interleaving of the model\'s atomic steps (operations on the shared semaphore/target); CPython thread '
+                'pre-emption is reached only through the scheduler-driven correspondence. trusted: Lean kernel, the model TTV/Model/Conc.lean, harness/sched.py and '
+                'the plug-in; threading.Semaphore semantics modelled',
+        'technique': 'Lean 4 invariant proof over a small-step interleaving semantics (all schedules, no bound), executable spec shared with a differential '
+                     'correspondence check under a deterministic thread scheduler',
+    }
+
     def __init__(self):
         self.stats = {}
         self._sys = None
